@@ -694,7 +694,8 @@ func (fx *FuncCtx) specCall(env *specEnv, x *ast.CallExpr) sval {
 		return sval{env.cur.written, nil}
 	}
 	switch name {
-	case "math.Pow", "math.Log", "math.Exp", "math.Log2", "math.Log1p", "math.Expm1", "math.Cbrt", "math.Sin", "math.Cos", "math.Hypot", "math.Copysign":
+	case "math.Pow", "math.Log", "math.Exp", "math.Log2", "math.Log1p", "math.Expm1", "math.Cbrt", "math.Sin", "math.Cos", "math.Hypot", "math.Copysign",
+		"math.Tan", "math.Asin", "math.Acos", "math.Atan", "math.Sinh", "math.Cosh", "math.Tanh", "math.Asinh", "math.Acosh", "math.Atanh", "math.Log10", "math.Atan2", "math.Gamma", "math.Erf", "math.Erfc":
 		// the uninterpreted function the code model uses for the same library call
 		var args []Term
 		var sorts []Sort
